@@ -226,8 +226,10 @@ Fixpoint arg_free (c : Z) (arg : str) : bool :=
               && arg_free c r
   end.
 
+(* a key name: not one of the three punctuation keys , : + (they need the escaped spellings) and free
+   of the control bytes 0-2 (never produced by a keyboard; fzf uses them internally as escape marks) *)
 Definition key_spelling_ok (k : str) : bool :=
-  nonemptyb k && forallb (fun c => negb (is_sep c)) k
+  nonemptyb k && forallb (fun c => negb (is_sep c) && (3 <=? c)) k
   && match key_of_token k with Some _ => true | None => false end.
 
 Definition lowercase (s : str) : bool := forallb (fun c => negb (is_upper c)) s.
